@@ -126,7 +126,7 @@ theorem closed_reloaded (u : UC) (m : MM) (hm : m.Closed u) (A : List AssocM) (h
     intro c' hc'
     obtain ⟨c, hc, rfl⟩ := List.mem_map.mp hc'
     exact ⟨c, hperm.mem_iff.mp hc, rfl⟩
-  refine ⟨?_, ?_, ?_, ?_, ?_⟩
+  refine ⟨?_, ?_, ?_, ?_, ?_, ?_⟩
   · show ((m.sortedClasses u).map (canonClass u)).map (fun c => u.upper c.kind) |>.Nodup
     rw [List.map_map]
     exact ((hperm.map _).nodup_iff).mpr hm.distinct
@@ -167,6 +167,10 @@ theorem closed_reloaded (u : UC) (m : MM) (hm : m.Closed u) (A : List AssocM) (h
         | cons v vs => simp only [canonVals, List.length_cons, ih vs (by simpa using h)]
     show (canonVals u c.attrs r0).length = (upAttrs u c.attrs).length
     rw [this c.attrs r0 hl]; simp [upAttrs]
+  · intro c' hc'
+    obtain ⟨c, hc, rfl⟩ := hcls c' hc'
+    show attrNamesOk u (upAttrs u c.attrs) = true
+    rw [attrNamesOk_upAttrs]; exact hm.attrNames c hc
 
 theorem wf_reloaded (u : UC) (m : MM) (hw : m.WF u) (hm : m.Closed u) (A : List AssocM) (hA : ∀ a ∈ A, a ∈ m.assocs) :
     (m.reloaded u A).WF u := by
